@@ -24,14 +24,18 @@ from . import parsing
 STATES = ["first", "after-separator", "after-token"]
 
 
+class StaleTrackerUsed(Exception):
+    """read-frame violation: the tracker left by a previous input was used for the first token of a new one"""
+
+
 class Poison:
-    """stands for a stale tracker of a previous input: any use is loud (read frame of C04-H(b))"""
+    """stands for a stale tracker of a previous input: any use violates the read frame of C04-H(b)"""
 
     def __getattr__(self, k):
-        raise EngineUnsupported("stale head/tail tracker of a previous parse was read (.%s)" % k)
+        raise StaleTrackerUsed("head/tail tracker of a previous parse was read (.%s) for the first token" % k)
 
     def __setattr__(self, k, v):
-        raise EngineUnsupported("stale head/tail tracker of a previous parse was written (.%s)" % k)
+        raise StaleTrackerUsed("head/tail tracker of a previous parse was written (.%s)" % k)
 
 
 def rules():
@@ -120,7 +124,18 @@ def run_rule(cx, rule, state, want):
         setattr(lexer, HT.HeadTailLexer.LEXER_ATTR, tracker)
         tok.lexpos = rewriteless_len(consumed)
         cx.assume(I(tok.lexpos) >= 1)
-    cx.notes["replay_info"] = {"rule": name, "state": state}
+    sample = {"TERM": "w", "PHRASE": '"p q"', "REGEX": "/r/", "APPROX": "~2", "BOOST": "^2", "SEPARATOR": "  "}.get(
+        ttype, m if isinstance(m, str) else "w")
+    ctxq = {"APPROX": "w%s", "BOOST": "w%s", "COLUMN": "f%sw", "RPAREN": "(w%s", "RBRACKET": "[a TO b%s",
+            "LPAREN": "%sw)", "LBRACKET": "%sa TO b]", "AND_OP": "w %s w", "OR_OP": "w %s w", "PLUS": "%sw",
+            "MINUS": "%sw", "LESSTHAN": "%sw", "GREATERTHAN": "%sw", "NOT": "%sw", "SEPARATOR": "w%sw"}.get(ttype, "%s")
+    pre = {"first": "", "after-separator": " \t", "after-token": "v  "}[state]
+    if state == "first":
+        qs = [ctxq.split("%s")[0] and sample or ctxq % sample, "zz yy", sample + " x"]
+    else:
+        qs = [pre + (ctxq % sample), "x y", pre + sample, "x " + pre + (ctxq % sample) + "  y"]
+    cx.notes["replay_info"] = {"rule": name, "state": state, "queries": qs + ["a b", " a  b ", "a~2 b"],
+                               "sequence": True}
     outcome = None
     ret = None
     try:
